@@ -10,7 +10,8 @@ Decided here (necessary conditions of history independence, each on every path):
           (`wild-card | all restricted variables of the scope occur in the key`), and a hit is intersected with the
           current unit set;
   C04-R4  renaming discipline on a hit: substitute_hctl_var(graph, set, stored name, current name of the same
-          canonical variable);
+          canonical variable); the renaming primitive itself must rename
+          (substitute_hctl_var = project_out(before)(set & equalizer(before, after)), identity only for equal names; shared with C03-R3);
   C04-R5  protocol: only look-up / store of the fresh result / eviction touch the cache; eviction only at counter zero
           and never for wild-cards; the counter is decremented exactly once per admitted hit;
   C04-R6  batch threading: every batch driver creates one context from the very list it then evaluates in order,
